@@ -1531,6 +1531,7 @@ func c01R10(c *Ctx) {
 		c.undecided("C01.R10", "only "+itoa(handlers)+" listener handlers mapped to grammar rules")
 		return
 	}
+	reaches := g.reachesRule()
 	for _, fld := range scalars {
 		var nestedWriters []site
 		for _, wr := range writes[fld] {
@@ -1542,6 +1543,16 @@ func c01R10(c *Ctx) {
 		for _, rd := range reads[fld] {
 			if rd.held {
 				held = append(held, rd)
+				continue
+			}
+			// a read in the Enter handler of a child rule happens "after children were walked" as well when, inside the
+			// writer's rule, something that can contain that rule again comes before the child (an else-if clause is
+			// entered after the if clause, whose body may hold a whole nested if statement)
+			for _, wr := range nestedWriters {
+				if rd.rule != wr.rule && g.childAfterNesting(wr.rule, rd.rule, reaches) {
+					held = append(held, rd)
+					break
+				}
 			}
 		}
 		key := "parserListener." + fld.Name()
@@ -1764,4 +1775,89 @@ func armsOfIfChain(head *ast.IfStmt) []arm {
 		}
 	}
 	return out
+}
+
+// ruleRefs lists, in order of appearance, the parser rules a rule's body refers to, with whether the reference can repeat.
+func (g *grammarInfo) ruleRefs(rule string) (names []string, repeats []bool) {
+	body := g.parserRules[rule]
+	clean := regexp.MustCompile(`'(?:[^'\\]|\\.)*'|#\s*[A-Za-z_0-9]+|[A-Za-z_0-9]+\s*=`).ReplaceAllStringFunc(body, func(m string) string { return strings.Repeat(" ", len(m)) })
+	re := regexp.MustCompile(`[a-z_][A-Za-z_0-9]*`)
+	for _, loc := range re.FindAllStringIndex(clean, -1) {
+		id := clean[loc[0]:loc[1]]
+		if _, ok := g.parserRules[id]; !ok {
+			continue
+		}
+		rep := false
+		rest := strings.TrimLeft(clean[loc[1]:], " \t\r\n")
+		if strings.HasPrefix(rest, "*") || strings.HasPrefix(rest, "+") {
+			rep = true
+		}
+		names = append(names, id)
+		repeats = append(repeats, rep)
+	}
+	return names, repeats
+}
+
+// reachesRule: reach[a][b] — rule a can derive (directly or not) an occurrence of rule b.
+func (g *grammarInfo) reachesRule() map[string]map[string]bool {
+	direct := map[string][]string{}
+	for name := range g.parserRules {
+		direct[name], _ = g.ruleRefs(name)
+	}
+	out := map[string]map[string]bool{}
+	for name := range g.parserRules {
+		seen := map[string]bool{}
+		var visit func(r string)
+		visit = func(r string) {
+			for _, t := range direct[r] {
+				if !seen[t] {
+					seen[t] = true
+					visit(t)
+				}
+			}
+		}
+		visit(name)
+		out[name] = seen
+	}
+	return out
+}
+
+// childAfterNesting: inside rule parent, an occurrence of child can be entered after a nested parent was completed —
+// an earlier reference in parent's body can derive parent, or child itself repeats and can derive parent. A child that
+// is not referred to directly by parent is treated the same way if anything on the way can derive parent (conservative).
+func (g *grammarInfo) childAfterNesting(parent, child string, reach map[string]map[string]bool) bool {
+	names, repeats := g.ruleRefs(parent)
+	direct := false
+	for j, nm := range names {
+		if nm != child {
+			continue
+		}
+		direct = true
+		if repeats[j] && reach[child][parent] {
+			return true
+		}
+		for i := 0; i < j; i++ {
+			if names[i] == parent || reach[names[i]][parent] {
+				return true
+			}
+		}
+	}
+	if direct {
+		return false
+	}
+	// deeper: through some direct reference that derives child
+	for j, nm := range names {
+		if !reach[nm][child] {
+			continue
+		}
+		if reach[nm][parent] {
+			return true // the subtree that holds child can hold a nested parent as well: order unknown
+		}
+		for i := 0; i < j; i++ {
+			if names[i] == parent || reach[names[i]][parent] {
+				return true
+			}
+		}
+	}
+	return false
 }
